@@ -357,7 +357,12 @@ def r16_hoist_arg(text, call, name):
     allowed only when everything evaluated before CALL inside the statement is a plain variable (checked: the text
     between the start of the statement and CALL consists of identifiers, `(`, `,` and whitespace, apart from the
     callee path), so evaluation order is unchanged."""
-    if '(' not in call:
+    if call.startswith('re:'):
+        mm = re.search(call[3:], text)
+        if not mm:
+            return text, 0
+        call = mm.group(0)
+    elif '(' not in call:
         # a function name: hoist its (first) call whatever the arguments are
         mm = re.search(r'\b' + re.escape(call) + r'\(', text)
         if not mm:
@@ -468,3 +473,50 @@ def r6_max_size(text):
     """ITEMS.iter().map(|i| i.size()).max().unwrap_or(0)  ->  vt_max_size(ITEMS)"""
     return re.subn(r'\b(%s)\.iter\(\)\.map\(\|(%s)\| (%s)\.size\(\)\)\.max\(\)\.unwrap_or\(0\)' % ((IDENT,) * 3),
                    lambda m: 'vt_max_size(%s)' % m.group(1) if m.group(2) == m.group(3) else m.group(0), text)
+
+
+@rule('R14')
+def r14_for_chars_continue(text):
+    """for c in CS.chars() { BODY with `continue` }  ->
+         let vt_v = CS.vt_chars_vec(); let mut vt_i = 0; while vt_i < vt_v.len() { let c = &vt_v[vt_i]; vt_i += 1; BODY }
+    (Rust's own desugaring of `for`: advance first, then run the body, so `continue` keeps its meaning)"""
+    pat = re.compile(r'([ \t]*)for (%s) in (%s)\.chars\(\) \{' % (IDENT, IDENT))
+
+    def sub(m):
+        ind, c, cs = m.groups()
+        return ('%slet vt_v = %s.vt_chars_vec();\n%slet mut vt_i = 0;\n%swhile vt_i < vt_v.len() {\n%s    let %s = &vt_v[vt_i];\n%s    vt_i += 1;'
+                % (ind, cs, ind, ind, ind, c, ind))
+    return pat.subn(sub, text)
+
+
+@rule('R6_filter_join')
+def r6_filter_join(text):
+    """X.chars().filter(CLOSURE).join(SEP)   ->  vt_filter_join(X.vt_chars_vec(), CLOSURE, SEP)   (X may span lines)"""
+    pat = re.compile(r'(?P<x>[A-Za-z_][A-Za-z0-9_:]*\([^()]*\)|%s)\s*\.chars\(\)\s*\.filter\((?P<cl>\|[^|]*\|[^\n]*?)\)\s*\.join\((?P<sep>"[^"]*")\)' % IDENT)
+    return pat.subn(lambda m: 'vt_filter_join(%s.vt_chars_vec(), %s, %s)' % (m.group('x'), m.group('cl'), m.group('sep')), text)
+
+
+@rule('R17')
+def r17_hoist_closure(text, name):
+    """ANF step for a closure argument:  STMT( .., |p: T| -> R { body }, .. )  ->  let NAME = |p: T| -> R { body }; STMT( .., NAME, .. )
+    (creating a closure has no effect; the closure must already carry its block, i.e. come after closure_annot)"""
+    m = re.search(r'\|[^|\n]*\| -> [^{\n]+ \{', text)
+    if not m:
+        return text, 0
+    k = m.start()
+    c = _balanced(text, m.end() - 1, '{', '}')
+    closure = text[k:c + 1]
+    s = max(text.rfind(';', 0, k), text.rfind('{', 0, k), text.rfind('}', 0, k)) + 1
+    while True:
+        mm = re.match(r'\s*//[^\n]*\n', text[s:k])
+        if not mm:
+            break
+        s += mm.end()
+    between = text[s:k]
+    if not re.match(r'^\s*(let\s+(mut\s+)?%s(\s*:\s*[^=]+)?\s*=\s*)?([A-Za-z_][A-Za-z0-9_:]*\(\s*((%s)\s*,\s*)*)+$' % (IDENT, IDENT), between):
+        raise RuleError('R17: statement prefix %r is not a call on plain variables' % between)
+    mws = re.match(r'\s*', text[s:])
+    ind_start = s + len(mws.group(0))
+    indent = _indent_of(text, ind_start)
+    new = text[:ind_start] + 'let %s = %s;\n%s' % (name, closure, indent) + text[ind_start:k] + name + text[c + 1:]
+    return new, 1
